@@ -1,7 +1,7 @@
 import re
 
 ID = "C10"
-LEVEL = "other"
+LEVEL = "proof"
 COQ_TARGETS = ["Props/Properties_C10.vo", "Extract/ExtractCap.vo", "Cap/CapRefuted.vo"]
 PROPS_FILES = ["Props/Properties_C10.v"]
 RUNS = [dict(name="cap", harness="c10", driver="cap", model_ml="cap_model", timeout=3000)]
@@ -15,7 +15,7 @@ TRUSTED = ["model coq/Cap/Cap.v hand-written from capability.go; step = one mute
 MODELLED = ["sync.Mutex (free/held), channels done/resolved (closed flag; close of a closed channel = panic)",
             "application ClientHook (Send/Recv return when the environment says so; Shutdown returns)"]
 ASSUMPTIONS = ["the client passed to ClientPromise.Fulfill is not released before Fulfill returns (otherwise the model sets `misuse`)",
-               "promises are not resolved into a cycle", "a WeakClient value is not used by two goroutines at once"]
+               "promises are not resolved into a cycle (the model flags it as misuse)", "a WeakClient value is not used by two goroutines at once"]
 
 
 def _parse(obs):
@@ -69,21 +69,26 @@ def violates(run, case, impl, model):
 
 
 LEVEL_TEXT = ("Proof (Coq, no axioms) over ALL thread programs and ALL interleavings of a small-step model of capability.go with "
-              "explicit per-client and per-hook mutexes: an inductive invariant (exact reference accounting along resolution "
-              "chains, call accounting, done/Shutdown protocol, mutex protocol) is preserved by every step; from it: Shutdown of a "
+              "explicit per-client and per-hook mutexes (resolveHook's hand-over-hand walk one step per hop): an inductive invariant "
+              "(exact reference accounting along resolution chains, call accounting, done/Shutdown protocol, mutex protocol), "
+              "well-formedness of ids and acyclicity of the resolution graph are preserved by every step; from them: Shutdown of a "
               "hook runs at most once, and exactly once by the time all operations have finished iff its reference count is 0 "
               "(shutdown_once); at the Shutdown step refs = 0, calls = 0 and no live client resolves to the hook "
               "(shutdown_after_last); every unlocked hook's refs equals the number of live clients resolving to it and Fulfill "
               "moves the promised hook's references to the target (refs_transfer, refs_transfer_step); calls through "
-              "nil/released/null-resolved clients end with the error result without touching a hook (null_released_error). "
-              "Deadlock freedom is proved only in part (no_stuck_partial: configurations without a Fulfill inside its transfer "
-              "walk, ids well-formed); hence level `other`. The pre-fix Fulfill is kept as model variant fixed=false with the "
-              "machine-found double-use witness (C10_prefix_refuted). The model is tied to the code by replaying, on the extracted "
-              "model, the exact schedules through which the harness drives the real goroutines (synctest + verif yield points), "
-              "comparing events, result classes, per-hook refs/calls/done/shutdown counts and the enabled-thread set before every step.")
-LEVEL_NOTE = ("no_stuck (deadlock freedom) is not proved at full strength: missing are the well-formedness of ids as an invariant and "
-              "the acyclicity argument for chains of concurrent Fulfill transfer walks; assumptions: the Fulfill argument stays "
-              "unreleased during the call, no resolution cycles, one goroutine per WeakClient value. Defect found and fixed: "
-              "ClientPromise.Fulfill released the promise hook's mutex before locking the target (repo commit 'fix: ClientPromise.Fulfill ...').")
+              "nil/released/null-resolved clients end with the error result without touching a hook (null_released_error); every "
+              "reachable configuration with an unfinished thread has an enabled step (no_stuck: deadlock freedom; chains of "
+              "concurrent Fulfill transfer walks are ordered by a ranking of the acyclic resolution graph); the step relation is "
+              "well-founded (terminates: no infinite execution; own_steps_decrease: the per-call measure stage*D + rank of the "
+              "hook about to be locked). The pre-fix Fulfill is kept as model variant fixed=false with the machine-found "
+              "witness (C10_prefix_refuted). The model is tied to the code by replaying, on the extracted model, the exact "
+              "schedules through which the harness drives the real goroutines (synctest + verif yield points), comparing events, "
+              "result classes, per-hook refs/calls/done/shutdown counts and the enabled-thread set before every step.")
+LEVEL_NOTE = ("All theorems are for executions in which the callers keep the API contract (model flag misuse = false): the client "
+              "passed to Fulfill stays unreleased during the call, and a promise is never fulfilled with a client that "
+              "(transitively) resolves to that promise (the model's cycle check may also flag when its fuel = number of hooks runs "
+              "out, which cannot happen on an acyclic graph but is not proved). A WeakClient value is used by one goroutine at a "
+              "time. Application call-outs are assumed to return (their return is a step of the model). Defect found and fixed: "
+              "ClientPromise.Fulfill released the promise hook's mutex before locking the target.")
 TECHNIQUE = "Coq invariant proofs over a small-step interleaving model + schedule-replay correspondence under synctest"
 DESIGN_REF = "DESIGN.md section 6, C10"
